@@ -29,6 +29,19 @@ MUTANTS = [
     ("C14", "error-start-off-by-one", "pdpy11/bk_encoding.py", "        start = 0\n", "        start = 1\n"),
     ("C15", "1600-to-1640", "pdpy11/metacommands.py", "a * 1600 + b * 40 + c", "a * 1640 + b * 40 + c"),
     ("C15", "table-dollar-dot-swapped", "pdpy11/radix50.py", "XYZ$.%", "XYZ.$%"),
+    ("C13", "bit-order-msb-first", "pdpy11/bk_wav.py", "(byte >> i) & 1", "(byte >> (7 - i)) & 1"),
+    ("C13", "checksum-mod-65536", "pdpy11/bk_wav.py", "            result -= 0xffff\n", "            result -= 0x10000\n"),
+    ("C13", "name-padded-with-nul", "pdpy11/metacommands.py", 'encoded_bk_filename.ljust(16, b" ")', 'encoded_bk_filename.ljust(16, b"\\0")'),
+    ("C13", "bin-length-field-plus-header", "pdpy11/formats.py", 'struct.pack("<HH", base, len(code))', 'struct.pack("<HH", base, len(code) + 4)'),
+    ("C13", "wav-ext-not-stripped-from-tape-name", "pdpy11/metacommands.py", 'if bk_filename.lower().endswith(".wav"):', 'if bk_filename.endswith(".wav"):'),
+    ("C13", "turbo-pause-dropped", "pdpy11/bk_wav.py", '(env.PAUSE if turbo else b"")', 'b""'),
+    ("C13", "riff-size-off", "pdpy11/bk_wav.py", "36 + len(data),", "44 + len(data),"),
+    ("C13", "make_raw-gets-extension", "pdpy11/metacommands.py", 'add_emitted_file(state, raw_file_path, "raw", None)', 'add_emitted_file(state, raw_file_path, "raw", "raw")'),
+    ("C13", "implicit-bin-keeps-mac", "pdpy11/_cli.py", """                if filename.lower().endswith(".mac"):
+                    filename = filename[:-4]
+                args.outfile""", """                if filename.endswith(".mac"):
+                    filename = filename[:-4]
+                args.outfile"""),
     ("C15", "rad50-code-limit", "pdpy11/metacommands.py", "if val >= 40:", "if val > 40:"),
 ]
 
